@@ -383,3 +383,34 @@ def labels_after_reads(repo, T, valuation="mixed"):
             r, _t, extra = build_one(repo, T, cfg, log, valuation, facade_cls, inspect=inspect)
             res[(plat, cfg.stem, log.stem, facade_cls)] = (r, extra)
     return res
+
+
+def config_devices_watched(repo, T, valuation="mixed"):
+    """For the richest shipped (config, log) pair of every platform: on the awaitable facade as built by its constructor,
+    every device of `all_config_change_devices` has the facade's `_on_config_device_change` among its observers (however the
+    registration is written) -> {(platform, cfg, log): (build result, [keys of unwatched devices], devices examined)}"""
+    from .absint import BoundMethod
+    best = {}
+    for _p, cfg, log in T.combos():
+        n = len(set(cfg.keys()) | set(log.keys()))
+        if n > best.get(cfg.platform, (0,))[0]:
+            best[cfg.platform] = (n, cfg, log)
+
+    def inspect(it, fac):
+        missing, n = [], 0
+        for d in list(it.getattr(fac, "all_config_change_devices")):
+            if not isinstance(d, Obj):
+                continue
+            n += 1
+            obs = []
+            for v in d.attrs.values():
+                if isinstance(v, list):
+                    obs.extend(x for x in v if isinstance(x, BoundMethod))
+            if not any(o.obj is fac and o.fi.name == "_on_config_device_change" for o in obs):
+                missing.append(it.getattr(d, "key"))
+        return missing, n
+    res = {}
+    for plat, (_n, cfg, log) in sorted(best.items()):
+        r, _t, extra = build_one(repo, T, cfg, log, valuation, "GeckoAsyncFacade", inspect=inspect)
+        res[(plat, cfg.stem, log.stem)] = (r, extra)
+    return res
